@@ -398,6 +398,13 @@ func main() {
 				// bound; two further "other" bytes ($ and a non-ASCII byte) to a lower one.
 				n += mc.ForStrings(alphabet[:7], mc.Pick(r, 7, 9), r.Workers, one)
 				n += mc.ForStrings(alphabet, mc.Pick(r, 5, 6), r.Workers, one)
+				// Quotes and backslashes only (and one ordinary byte): the quoting idioms
+				// that Quote emits ('\'' and runs of it) need 8 and more bytes.
+				n += mc.ForStrings("'\\", mc.Pick(r, 14, 17), r.Workers, one)
+				n += mc.ForStrings("'\\a", mc.Pick(r, 10, 11), r.Workers, one)
+				n += mc.ForStrings("\"\\a", mc.Pick(r, 10, 11), r.Workers, one)
+				n += mc.ForStrings("'\"\\", mc.Pick(r, 9, 10), r.Workers, one)
+				n += mc.ForStrings("'\\ ", mc.Pick(r, 9, 10), r.Workers, one)
 				// The class alphabet assumes that all bytes of a class behave alike;
 				// a per-byte table can single one out. Every byte value, alone, in
 				// pairs, and in each quoting and escaping context.
@@ -424,7 +431,7 @@ func main() {
 				r.AddEval(n, n, n, incomplete)
 				r.Count("state_class_entries_covered_of_42", int64(covered))
 				r.Count("consecutive_transition_pairs_covered", int64(len(pairs)))
-				r.Bound("alphabet", "a, space, tab, newline, backslash, single quote, double quote to the full bound; plus $ and 0x80 to the lower bound; every byte value 0..255 alone, in all pairs and in 14 quoting/escaping contexts")
+				r.Bound("alphabet", "a, space, tab, newline, backslash, single quote, double quote to the full bound; plus $ and 0x80 to the lower bound; quotes and backslash alone to length 14/17, with one more byte to 9-11; every byte value 0..255 alone, in all pairs and in 14 quoting/escaping contexts")
 				r.Rule("Split on every string over the byte-class alphabet vs the reference tokenizer (fields and completeness); coverage of (state, class) entries and of consecutive transition pairs measured with a shadow automaton; non-trivial = incomplete inputs (open quote or dangling backslash)")
 				r.Sample(scase{"a\\\n b \"c\\\"d\" 'e"})
 				// Real shells on the complete inputs free of unquoted newlines and other metacharacters.
